@@ -34,6 +34,8 @@ CLDR_CARDINAL = {
            "few": "v = 0 and i % 100 = 3..4 or v != 0"},
     "cy": {"zero": "n = 0", "one": "n = 1", "two": "n = 2", "few": "n = 3", "many": "n = 6"},
     "ro": {"one": "i = 1 and v = 0", "few": "v != 0 or n = 0 or n % 100 = 2..19"},
+    "pt": {"one": "i = 0..1"},
+    "pt-PT": {"one": "i = 1 and v = 0"},      # the only region-specific rule set (locales="pt_PT")
 }
 CLDR_ORDINAL = {
     "en": {"one": "n % 10 = 1 and n % 100 != 11", "two": "n % 10 = 2 and n % 100 != 12",
@@ -43,9 +45,9 @@ CLDR_ORDINAL = {
     "uk": {"few": "n % 10 = 3 and n % 100 != 13"},
     "cy": {"zero": "n = 0,7,8,9", "one": "n = 1", "two": "n = 2", "few": "n = 3,4", "many": "n = 5,6"},
     "sv": {"one": "n % 10 = 1,2 and n % 100 != 11,12"},
-    "ar": {}, "cs": {}, "de": {}, "ja": {}, "lt": {}, "pl": {}, "ru": {}, "sl": {},
+    "ar": {}, "cs": {}, "de": {}, "ja": {}, "lt": {}, "pl": {}, "ru": {}, "sl": {}, "pt": {},
 }
-LANGS = sorted(CLDR_CARDINAL)
+LANGS = sorted(CLDR_CARDINAL)            # locale names: the 15 languages and pt-PT
 KEYWORDS = ["zero", "one", "two", "few", "many", "other"]
 # (language, type) pairs whose rule in intl_pluralrules 7.0.2 is mis-translated (known finding F26)
 F26_PAIRS = {("ar", "cardinal"), ("lt", "cardinal"), ("ro", "cardinal"), ("en", "ordinal"), ("uk", "ordinal"),
@@ -107,8 +109,12 @@ def category(lang, typ, printed, buggy=False):
     return "other"
 
 
-def rule_lang(locale):
-    """the bundle's first locale -> language whose rules apply (unknown language: en)"""
+def rule_lang(locale, typ):
+    """the bundle's first locale -> the CLDR rule set that applies: a region-specific rule set when CLDR has one for
+    exactly this locale and type (cardinal pt-PT), else the rules of the language; unknown language: en"""
+    table = CLDR_ORDINAL if typ == "ordinal" else CLDR_CARDINAL
+    if locale in table:
+        return locale
     l = locale.split("-")[0].lower()
     return l if l in CLDR_CARDINAL else "en"
 
@@ -276,10 +282,10 @@ class C12(Base):
             "plus unknown names, with valid, invalid and wrong-kind values; minimumFractionDigits 0..18, 19, 20, 25, "
             "100, 101, 10^6, u64::MAX, 10^30, negative, fractional) x select with plural keywords in random order, exact "
             "numeric keys (the value written with other fraction digits / leading zero, neighbours), other identifiers "
-            "and one default at a random position. Locales en pl ru ar fr cs lt ja de uk sl cy ro sv, en-US, pl-PL, "
-            "fr-CA, ar-EG, unknown (xx, tlh). A fixed family covers the property's examples per locale; 5% of the "
+            "and one default at a random position. Locales en pl ru ar fr cs lt ja de uk sl cy ro sv pt, en-US, pl-PL, "
+            "fr-CA, ar-EG, pt-PT (the crate's only region-specific rule set), pt-BR, pt-AO, unknown (xx, tlh). A fixed family covers the property's examples per locale; 5% of the "
             "cases use values outside the exact-decimal domain (NaN, inf, 1e300, -0, >15 digits, 25+ fraction digits). "
-            "thorough adds, per locale (16) x cardinal/ordinal: every integer 0-200 as i32 argument, as literal with "
+            "thorough adds, per locale (20) x cardinal/ordinal: every integer 0-200 as i32 argument, as literal with "
             ".0/.00/.5/.10, and with minimumFractionDigits 1, and every one- and two-fraction-digit literal over "
             "integer parts 0-20. Non-trivial = value in the exact-decimal domain, selector is a number, and either a "
             "variant other than the default was chosen by a key or NUMBER changed the printed text or fraction digits "
@@ -299,7 +305,7 @@ class C12(Base):
     F26_CLASS = "F26 plural category follows the mis-translated rule of intl_pluralrules"
 
     # --- generators ----------------------------------------------------------------------------------------
-    LOCALES = LANGS + ["en-US", "pl-PL", "xx", "tlh", "fr-CA", "ar-EG"]
+    LOCALES = LANGS + ["en-US", "pl-PL", "xx", "tlh", "fr-CA", "ar-EG", "pt-BR", "pt-AO", "pt-PT", "pt"]
     ALLKEYS = "Izero,Ione,Itwo,Ifew,Imany,*Iother"
 
     def gen_decimal(self, rng, maxfrac=18):
@@ -471,6 +477,12 @@ class C12(Base):
             for v in ["1", "1.0", "2", "5", "21", "0", "11", "0.5", "1.5", "-1", "100", "1.00", "3.0"]:
                 for o in ["-", ordinal, "minimumFractionDigits=D1", "minimumFractionDigits=D0"]:
                     yield "num %s L%s %s %s" % (loc, hx(v), o, self.ALLKEYS)
+        # region-specific rules: pt (one: i = 0..1) versus pt-PT (one: i = 1 and v = 0); pt-BR / pt-AO negotiate to pt
+        for loc in ["pt", "pt-PT", "pt-BR", "pt-AO"]:
+            for v in ["0", "0.0", "0.5", "1", "1.0", "1.5", "2", "0.00", "1.9", "-0.5", "10", "2.0"]:
+                for o in ["-", ordinal, "minimumFractionDigits=D1", "minimumFractionDigits=D0"]:
+                    yield "num %s L%s %s %s" % (loc, hx(v), o, self.ALLKEYS)
+                yield "num %s Rf64:%s - %s" % (loc, v, self.ALLKEYS)
         for v in ["1", "1.5", "0", "12345.678"]:
             for m in ["0", "18", "19", "20", "25", "100", "101", "1000000"]:
                 yield "num en L%s minimumFractionDigits=D%s %s" % (hx(v), m, self.ALLKEYS)
@@ -482,7 +494,7 @@ class C12(Base):
             v = self.gen_ood_value(rng)
             yield "num %s %s %s %s" % (rng.choice(self.LOCALES), v, self.gen_opts(rng), self.gen_keys(rng, v))
         if tier == "thorough":
-            for loc in LANGS + ["en-US", "xx"]:
+            for loc in LANGS + ["en-US", "xx", "pt-BR", "pt-AO"]:
                 for o in ["-", ordinal]:
                     for i in range(0, 201):
                         yield "num %s Ri32:%d %s %s" % (loc, i, o, self.ALLKEYS)
@@ -657,7 +669,7 @@ class C12(Base):
             return "select printed %r" % s
         chosen = int(s)
         default = [i for i, v in enumerate(c.variants) if v[2]][0]
-        lang = rule_lang(c.locale)
+        lang = rule_lang(c.locale, typ or "cardinal")
         # walk the variants in order; `maybe` = the property does not pin whether this key matches
         acceptable = []
         decided = False
@@ -715,7 +727,7 @@ class C12(Base):
                 return False
             got = {kv.partition("=")[0]: kv.partition("=")[2] for kv in o["r"].split("|")[1:]}
             typ = got["ty"]
-            lang = rule_lang(c.locale)
+            lang = rule_lang(c.locale, typ)
             if (lang, typ) not in F26_PAIRS:
                 return False
             printed = text_of(o["q"])[0] if c.named is not None else text_of(o["p"])[0]
@@ -811,7 +823,8 @@ class C12(Base):
                                    "1-18" if int(got["minfd"]) <= 18 else "19-100" if int(got["minfd"]) <= 100 else ">100"))
             printed = (text_of(o["q"])[0] if c.named is not None else text_of(o["p"])[0]).rstrip(".")
             if PRINTED.match(printed) and v <= 18:
-                bump(dist, "category:%s:%s:%s" % (rule_lang(c.locale), got["ty"][:4], category(rule_lang(c.locale), got["ty"], printed)))
+                rl = rule_lang(c.locale, got["ty"])
+                bump(dist, "category:%s:%s:%s" % (rl, got["ty"][:4], category(rl, got["ty"], printed)))
         elif o["r"] == "E":
             bump(dist, "selector:error-value")
         else:
